@@ -80,6 +80,10 @@ CHECKS = {
    text="Real ClientGroupConfig.AddClientGroup and its probe service over 1-5 fake clients (plus non-member decoys) answering scripted probe outcomes on a virtual clock for 100-150 rounds (longer than the 64/32-round retention, with profiles that flip exactly one retention later, ties, dead members); an independent model (retained history, failure = timeout, first client in configuration order with the strictly best score) is compared with the client actually handed out right after each round, at random instants and DURING rounds; round-robin under the race detector: exact cyclic order single-threaded, ticket multiset and porcupine fetch-and-increment model concurrently; random: members only; UDP groups probe a scripted DNS responder over loopback on the fake clock.",
    note="Rounds never overrun the interval; instants at which a probe completes are not observed; counter wrap at 2^63 out of scope.",
    tech="runtime monitoring: reference policy model + porcupine over recorded selections (synctest virtual clock, race detector, faketime for UDP probes)"),
+ "C17": dict(cat="fault_enumeration",
+   text="The real dns.Resolver (real direct UDP/TCP clients) against a scripted UDP+TCP upstream on loopback with decoy sockets (other IP, same IP other port) on the runtime's fake clock: every pair of scripted reactions per query for UDP (19) and TCP (15) incl. truncation, wrong ID, wrong source, RA=0, failure rcodes, NXDOMAIN with SOA, garbage, silence, TCP closes at every framing point; lookup histories of 1-4 names straddling each TTL, the negative TTL and the 30 s failure time with cache capacities 1-4/unbounded, serve-stale and recovery; mutated replies followed by genuine lookups. Oracle: unique addresses per script make provenance visible; the fake upstream counts queries so both bounds of a cache lifetime are enforced.",
+   note="Mixed-nature results use the [min,max] interval of the candidate lifetimes (don't-care inside); caller-context cancellation not exercised; a violation is reported only if it reproduces in a re-execution.",
+   tech="runtime monitoring: scripted-upstream fault enumeration with provenance/expiry oracle on real sockets under the faketime clock"),
 }
 
 PENDING_DEFAULT = "check under construction in this session (design in DESIGN.md §4); not claimed until its monitor runs clean on the unchanged tree"
